@@ -75,6 +75,7 @@ type Exec struct {
 	frameOn      bool
 	retHook      func(val Val)
 	retFrame     *Frame
+	entryMeasure []*Term
 	externSites  int
 	sym          *symSession
 	unitFType    *Contract
